@@ -59,7 +59,7 @@ func buildTimeCodec(schema avro.Schema, typ reflect.Type, omit bool) (avro.Codec
 type DateCodec struct{ avro.Int32Codec }
 
 func (c DateCodec) Read(r *avro.ReadBuf, p unsafe.Pointer) error {
-	var l int64
+	var l int32
 	if err := c.Int32Codec.Read(r, unsafe.Pointer(&l)); err != nil {
 		return err
 	}
@@ -81,7 +81,13 @@ func (c DateCodec) Omit(p unsafe.Pointer) bool {
 func (c DateCodec) Write(w *avro.WriteBuf, p unsafe.Pointer) {
 	t := *(*time.Time)(p)
 	// TODO: wrangle this into Time.AppendFormat?
-	day := int32(t.Unix() / (60 * 60 * 24))
+	secs := t.Unix()
+	days := secs / (60 * 60 * 24)
+	if secs%(60*60*24) < 0 {
+		// round towards negative infinity so times before 1970 map to the day they fall in
+		days--
+	}
+	day := int32(days)
 
 	c.Int32Codec.Write(w, unsafe.Pointer(&day))
 }
@@ -165,7 +171,16 @@ func (c LongCodec) Omit(p unsafe.Pointer) bool {
 
 func (c LongCodec) Write(w *avro.WriteBuf, p unsafe.Pointer) {
 	t := *(*time.Time)(p)
-	l := t.UnixMicro()
+	// store the instant in the unit Read scales by
+	var l int64
+	switch c.mult {
+	case 1000:
+		l = t.UnixMicro()
+	case 1e6:
+		l = t.UnixMilli()
+	default:
+		l = t.UnixNano()
+	}
 
 	c.Int64Codec.Write(w, unsafe.Pointer(&l))
 }
